@@ -117,7 +117,9 @@ def _check(c, orig, model, in_db, span, kwargs, result, info):
     # ---- measurement variables and pre-span periods
     for n in mnames:
         a, b = outv[n][c0:c0 + T], inp[n][c0:c0 + T]
-        same = (np.isnan(a) & np.isnan(b)) | (a == b)
+        with np.errstate(invalid="ignore"):
+            # (a log measurement variable goes through log and exp: one unit in the last place is not a change)
+            same = (np.isnan(a) & np.isnan(b)) | (np.abs(a - b) <= 4e-16 * (1 + np.abs(b)) * 4)
         if not same.all():
             vio("output:measurement-variable-changed", f"{n}: differs from its input on the span (nonlinear methods do not solve measurement equations)")
             return
